@@ -72,3 +72,7 @@ package common
 //@ ensures fresh(result) && implies(sep != "" && n != 0, len(result) >= 1)
 //@ extern strings.Fields
 //@ ensures fresh(result)
+
+// Path normalisation is a regular-expression rewrite (`/+` -> `/`): its meaning is not decided here; it is a
+// deterministic function of its argument, the same one for both OpenAPI versions.
+//@ func RemoveDuplicateSlash pure trusted
